@@ -10,6 +10,50 @@ import os
 import sys
 
 sys.path.insert(0, os.path.dirname(os.path.dirname(os.path.abspath(__file__))))
+
+
+def shift_clock(seconds: float):
+    """Let this process live at another time: every Python-level way to ask for 'now' answers
+    `seconds` later.  A build whose output holds a date or a time stamp then differs from the
+    one of a sibling process."""
+    import datetime  # pylint: disable=import-outside-toplevel
+    import time  # pylint: disable=import-outside-toplevel
+    real_time, real_ns = time.time, time.time_ns
+    real_local, real_gm, real_strf = time.localtime, time.gmtime, time.strftime
+    real_ctime, real_asc = time.ctime, time.asctime
+    time.time = lambda: real_time() + seconds
+    time.time_ns = lambda: real_ns() + int(seconds * 1e9)
+    time.localtime = lambda secs=None: real_local(time.time() if secs is None else secs)
+    time.gmtime = lambda secs=None: real_gm(time.time() if secs is None else secs)
+    time.strftime = lambda fmt, t=None: real_strf(fmt, time.localtime() if t is None else t)
+    time.ctime = lambda secs=None: real_ctime(time.time() if secs is None else secs)
+    time.asctime = lambda t=None: real_asc(time.localtime() if t is None else t)
+    real_dt, real_date = datetime.datetime, datetime.date
+
+    class ShiftedDateTime(real_dt):
+        @classmethod
+        def now(cls, tz=None):
+            return real_dt.fromtimestamp(time.time(), tz)
+
+        @classmethod
+        def utcnow(cls):
+            return real_dt.fromtimestamp(time.time(), datetime.timezone.utc).replace(tzinfo=None)
+
+        @classmethod
+        def today(cls):
+            return real_dt.fromtimestamp(time.time())
+
+    class ShiftedDate(real_date):
+        @classmethod
+        def today(cls):
+            return real_dt.fromtimestamp(time.time()).date()
+
+    datetime.datetime, datetime.date = ShiftedDateTime, ShiftedDate
+
+
+if os.environ.get('VERIF_CLOCK_SHIFT'):
+    shift_clock(float(os.environ['VERIF_CLOCK_SHIFT']))
+
 from vlib import common, shellbuild  # noqa: E402
 
 
